@@ -50,6 +50,9 @@ def run_check(pid, tier, seed):
             try:
                 functions.append(extract.info(k["where"]))
                 stats.append(eng.verify(short))
+                if k.get("relational"):
+                    from pvc import relational
+                    smt_obls += relational.pair_obligations(eng, short, k["relational"])
             except extract.NotFound as e:
                 results.append(Result(f"{short}/function-exists", "exists", "undecided", short, 0, detail={"error": str(e)}))
             except Unsupported as e:
